@@ -61,7 +61,11 @@ type Config struct {
 	HoldIsAccept bool // FBB reading of answer H: "accepted but will be held" = transfer it (known-finding probe only)
 	EarlyFQ    bool // CMS habit: FQ right after an all-refused block when the library's last turn was FF
 	Gzip       bool // peer offers 'D' proposals when both sides advertise G
-	Exp        Expect
+	// Late > 0: the last Late messages of Queue reach the peer (a gateway) during the session - they become
+	// available only after the peer has said FF once. A station may propose again on a later turn after an FF;
+	// the other side must then answer and take its own turn as usual (FF, not FQ, if it has nothing).
+	Late int
+	Exp  Expect
 }
 
 // Received is a message the peer accepted and received.
@@ -76,6 +80,7 @@ type Result struct {
 	SentOK      []string // MIDs transferred to the library (accepted, frame sent, acknowledged by the next turn)
 	Rejected    []string // peer's MIDs the library rejected
 	Deferred    []string // peer's MIDs the library deferred
+	NeverOffered []string // late messages (Config.Late) that had not become available when the session ended
 	LibFrames   int
 	Nonconform  string // first non-conforming thing the library wrote ("" = none)
 	Err         error  // transport level problem (EOF in the wrong place etc.)
@@ -109,6 +114,8 @@ type peer struct {
 	myDeferred   map[string]bool
 	libLastFF    bool
 	peerLastFF   bool
+	saidFF       bool // the peer has said FF at least once
+	offered      map[string]bool
 	blockNo      int
 	gzipBoth     bool
 }
@@ -118,12 +125,21 @@ func bad(format string, a ...any) error { return nonconf{fmt.Sprintf(format, a..
 // Run executes the peer on conn until the session ends. It closes conn.
 func Run(conn net.Conn, c Config) (res Result) {
 	p := &peer{c: c, rw: conn, rd: bufio.NewReaderSize(conn, 1<<16), res: &res,
-		libPending: map[string]bool{}, libDeferred: map[string]bool{}, myDone: map[string]bool{}, myDeferred: map[string]bool{}}
+		libPending: map[string]bool{}, libDeferred: map[string]bool{}, myDone: map[string]bool{}, myDeferred: map[string]bool{}, offered: map[string]bool{}}
 	res.Choices = map[string]int{}
 	for _, m := range c.Exp.Queue {
 		p.libPending[m.MID] = true
 	}
 	defer conn.Close()
+	defer func() {
+		if c.Late > 0 {
+			for i := max(0, len(c.Queue)-c.Late); i < len(c.Queue); i++ {
+				if !p.offered[c.Queue[i].MID] {
+					res.NeverOffered = append(res.NeverOffered, c.Queue[i].MID)
+				}
+			}
+		}
+	}()
 	err := p.session()
 	var nc nonconf
 	if errors.As(err, &nc) {
@@ -300,7 +316,10 @@ func (p *peer) session() error {
 
 func (p *peer) myPending() []Out {
 	var out []Out
-	for _, m := range p.c.Queue {
+	for i, m := range p.c.Queue {
+		if p.c.Late > 0 && i >= len(p.c.Queue)-p.c.Late && !p.saidFF {
+			continue // has not arrived yet
+		}
 		if !p.myDone[m.MID] && !p.myDeferred[m.MID] {
 			out = append(out, m)
 		}
@@ -316,6 +335,10 @@ func (p *peer) myTurn() (done bool, err error) {
 			return true, nil
 		}
 		p.peerLastFF = true
+		if p.c.Late > 0 && !p.saidFF {
+			p.res.Choices["late-messages-after-FF"]++
+		}
+		p.saidFF = true
 		return false, p.send("FF\r")
 	}
 	p.peerLastFF = false
@@ -326,6 +349,7 @@ func (p *peer) myTurn() (done bool, err error) {
 	var block []Out
 	for _, m := range pend {
 		block = append(block, m)
+		p.offered[m.MID] = true
 		if p.c.Dup[m.MID] && len(block) < 5 {
 			block = append(block, m)
 			p.res.Choices["dup-mid-in-block"]++
